@@ -36,6 +36,7 @@ from .introspect import (
     _attribute_chain,
     _referenced_callable,
     _resolve_body_imports,
+    _arg_names,
 )
 from .structures import (
     FunctionArgContext,
@@ -189,7 +190,10 @@ class InspectFunctionIndirect(object):
             )
         dummy_arg_ctx = FunctionArgContext(OrderedDict(), None)
         local_vars = set(
-            InspectFunction.get_local_vars(body, dummy_arg_ctx, fun_path) + arg_names
+            InspectFunction.get_local_vars(
+                body, dummy_arg_ctx, fun_path, _arg_names(node.args)
+            )
+            + arg_names
         )
         # _logger.debug(f"inspect_fun: %s local_vars: %s", fun_path, local_vars)
         vdeps = ExternalVarsVisitor(mod, gctx, local_vars)
